@@ -106,7 +106,7 @@ impl<'a, 'b, Output: BinaryOutput> AdtSerializer<'a, 'b, Output> {
     fn record_field_index(&mut self, field_name: &str, chunk: u8) {
         match self.last_index_per_chunk.get_mut(&chunk) {
             Some(last_index) => {
-                let new_index = *last_index + 1;
+                let new_index = last_index.wrapping_add(1);
                 *last_index = new_index;
                 self.field_indices
                     .insert(field_name.to_string(), FieldPosition::new(chunk, new_index));
